@@ -31,6 +31,7 @@ def _leaf(fn):
 
 
 def run(ctx, obs):
+    stale_masks(ctx, obs)
     from ..rules import sweeps
     sweeps.run(ctx, obs, 'C17')
     prog, heap = ctx.prog, ctx.heap
@@ -273,3 +274,43 @@ def custom(ctx, obs, rule='FWD'):
         ok = e is not None and isinstance(e, ast.Call) and _leaf(e.func) == 'get_vectors'
         obs.check(ok, rule, q, 'the function is applied to the vector form of the source',
                   f'fun is applied to `{ast.unparse(e) if e is not None else None}`', '', where(prog, f, c.node))
+
+
+def stale_masks(ctx, obs, rule='STALE-MASK'):
+    """Piecewise maps written as a sequence of masked in-place updates of one array (`x[x < a] = 0; x[(x >= a) & (x <= b)] = f(x);
+    x[x > b] = 1`): a mask that is computed from the array AFTER an update that stored computed (non-constant) values classifies
+    the already mapped values again - for the geo-topological transform the middle band is mapped onto [0, 1] and every mapped
+    value above the upper threshold (possible whenever that threshold is below 1, e.g. correlation distances) is then set to 1.
+    Accepted: masks bound to names before the first write, masks over an untouched copy, updates that only store constants."""
+    prog = ctx.prog
+    for fn in TRANSFORMS:
+        q = T + fn
+        f = prog.func(q)
+        stores = []
+        for s in f.node.body:
+            if isinstance(s, ast.Assign) and isinstance(s.targets[0], ast.Subscript) and isinstance(s.targets[0].value, ast.Name):
+                stores.append(s)
+        by_arr = {}
+        for s in stores:
+            by_arr.setdefault(s.targets[0].value.id, []).append(s)
+        for arr, ss in by_arr.items():
+            masked = [s for s in ss if any(isinstance(c, ast.Compare) for c in ast.walk(s.targets[0].slice))
+                      or isinstance(s.targets[0].slice, ast.Name)]
+            if len(masked) < 2:
+                continue
+            dirty = None
+            bad = None
+            for s in masked:
+                reads_arr = any(isinstance(n, ast.Name) and n.id == arr for n in ast.walk(s.targets[0].slice))
+                if dirty is not None and reads_arr and bad is None:
+                    bad = (s, dirty)
+                const_store = isinstance(s.value, ast.Constant) or (isinstance(s.value, ast.Attribute) and s.value.attr in ('nan', 'inf'))
+                if not const_store and dirty is None:
+                    dirty = s
+            con = f'the regions of the piecewise map on `{arr}` are determined from the original values'
+            if bad:
+                obs.bad(rule, q, con, f'`{norm(bad[0])[:70]}` recomputes its mask from `{arr}` after `{norm(bad[1])[:60]}` has overwritten '
+                        f'part of it with mapped values: mapped values that satisfy the later condition are mapped a second time',
+                        where(prog, f, bad[0]))
+            else:
+                obs.ok(rule, q, con, f'{len(masked)} masked updates', where(prog, f, masked[0]))
